@@ -7,6 +7,11 @@ import ipaddress
 import pkgutil
 import random
 
+# (vendor, code) of Address classes that carry a bare packed IPv4 address (RFC 7155 Framed-IP-Address)
+PACKED_V4 = {(None, 8)}
+
+SESSION_ID_CLASSES = ("SessionIdAVP", "AcctMultiSessionIdAVP")
+
 TYPE_ORDER = ["EnumeratedType", "Integer32Type", "Unsigned32Type", "Unsigned64Type", "GroupedType",
               "AddressType", "TimeType", "DiameterURIType", "DiameterIdentityType", "UTF8StringType",
               "OctetStringType"]
@@ -102,6 +107,11 @@ def gen_value(d, rng, depth=0, length=None):
             return n, n.to_bytes(8, "big")
         v = sample_bytes(rng, 8)
         return v, v
+    if t == "AddressType" and (d.vendor, d.code) in PACKED_V4:
+        a = ipaddress.IPv4Address(rng.getrandbits(32) | 0x01000000)      # see C02 note on 0.1.x.x / 0.2.x.x
+        if rng.random() < 0.5:
+            return str(a), a.packed
+        return a.packed, a.packed
     if t == "AddressType":
         if rng.random() < 0.5:
             a = ipaddress.IPv4Address(rng.getrandbits(32))
@@ -128,7 +138,7 @@ def gen_value(d, rng, depth=0, length=None):
     if t in ("DiameterIdentityType", "UTF8StringType"):
         n = length if length is not None else rng.randint(1, 23)
         s = "".join(rng.choice("abcdefghijklmnopqrstuvwxyz0123456789.-") for _ in range(n))
-        if rng.random() < 0.5:
+        if rng.random() < 0.5 and d.name not in SESSION_ID_CLASSES:     # a str makes these generate a Session-Id (C16)
             return s, s.encode()
         return s.encode(), s.encode()
     if t == "OctetStringType":
